@@ -98,7 +98,7 @@ proj_desc = st.one_of(
 def grid_cases(draw):
     region = draw(gen.regions(max_exp=4))
     mode = draw(st.sampled_from(["shape", "shape", "spacing", "spacing1", "coords1d", "coords2d"]))
-    case = dict(region=region, mode=mode, extra_seq=draw(st.sampled_from(vbuild.SEQS)), ncomp=draw(st.integers(1, 3)), projection=draw(proj_desc), gridder=draw(st.sampled_from(["analytic", "analytic", "analytic_region", "named", "trend", "knn", "checker"])),
+    case = dict(region=region, mode=mode, extra_seq=draw(st.sampled_from(vbuild.SEQS)), ncomp=draw(st.integers(1, 3)), projection=draw(proj_desc), gridder=draw(st.sampled_from(["analytic", "analytic", "analytic_region", "named", "named_instance", "trend", "knn", "checker"])),
                 adjust=draw(st.sampled_from(["spacing", "region"])), pixel=draw(st.booleans()), n_extra=draw(st.integers(0, 2)),
                 custom_dims=draw(st.booleans()), custom_names=draw(st.booleans()))
     if mode in ("shape", "coords1d", "coords2d"):
@@ -128,6 +128,12 @@ def make_gridder(case):
         return Analytic(ncomp=case["ncomp"], region=region), region
     if g == "named":
         return NamedExtra(ncomp=case["ncomp"]), None
+    if g == "named_instance":
+        # the same names set on one object instead of on a subclass
+        obj = Analytic(ncomp=case["ncomp"])
+        obj.extra_coords_name = "upward"
+        obj.dims = ("latitude", "longitude")
+        return obj, None
     w, e, s, n = region
     pts_e = np.array([w, e, w, e, (w + e) / 2, w + 0.25 * (e - w)])
     pts_n = np.array([s, s, n, n, (s + n) / 2, s + 0.75 * (n - s)])
@@ -190,7 +196,7 @@ def check_grid(case, ctx):
     kw = grid_kwargs(case)
     ncomp = case["ncomp"]
     dims = ("northing", "easting")
-    if case["gridder"] == "named":
+    if case["gridder"] in ("named", "named_instance"):
         dims = ("latitude", "longitude")
     if case["custom_dims"]:
         dims = ("yy", "xx")
@@ -253,7 +259,7 @@ def check_grid(case, ctx):
         ctx.check(var.dims == dims, "variable %s has dims %r, expected %r", name, var.dims, dims)
         ctx.check(var.shape == (exp_n.size, exp_e.size), "variable %s has shape %r, expected (n_north, n_east) = %r", name, var.shape, (exp_n.size, exp_e.size))
         ctx.check(var.attrs.get("metadata") == meta, "variable %s lacks the gridder's description as metadata", name)
-        if case["gridder"] in ("analytic", "analytic_region", "named"):
+        if case["gridder"] in ("analytic", "analytic_region", "named", "named_instance"):
             exp = field(c, pe, pn)
         elif case["gridder"] == "checker":
             # closed form (documented: amplitude * sin(2 pi e / w_east) * cos(2 pi n / w_north), wavelengths default to half the region)
@@ -267,7 +273,7 @@ def check_grid(case, ctx):
         if bad.any():
             i, j = np.argwhere(bad)[0]
             raise Violation("%s[%d, %d] = %r but the prediction at (easting[%d], northing[%d]) = (%r, %r) is %r" % (name, i, j, got[i, j], j, i, exp_e[j], exp_n[i], exp[i, j]))
-    base = "upward" if case["gridder"] == "named" else "extra_coord"
+    base = "upward" if case["gridder"] in ("named", "named_instance") else "extra_coord"
     for k in range(n_extra):
         nm = base if k == 0 else "%s_%d" % (base, k)
         ctx.check(nm in ds.coords, "extra coordinate %r missing (coords: %r)", nm, list(ds.coords))
